@@ -549,7 +549,10 @@ def run(ctx, seeds, length, monitor_names, mode=None, do_corr=True, cfg_override
     do_corr: True = every trace check (needs the git/flow binary), 'pipeline' = only the handler skeletons
     (Model/Pipeline.v; any binary that answers `pipe` requests, given as model_exe), False = monitors only."""
     exe = model_exe or (ctx.model.exe if ctx.model is not None else None)
-    if replay_history is not None:
+    if isinstance(replay_history, list):        # several explicit histories, in parallel
+        jobs = [(i, length, mode, monitor_names, exe, do_corr, cfg_override, max_prs, admin_jobs, h, None)
+                for i, h in enumerate(replay_history)]
+    elif replay_history is not None:
         jobs = [(0, length, mode, monitor_names, exe, do_corr, cfg_override, max_prs, admin_jobs, replay_history,
                  None)]
     else:
